@@ -257,8 +257,10 @@ static void do_resume(int j)
          * yield by the time the event runs, the signal is dropped" (cmb_process.h): nothing may come of it */
         PROBE("c09.resume_sent_to_process_stopped_in_its_yield");
         if (t->late_resume_n == 0 || t->late_resume_t != tnow()) { t->late_resume_t = tnow(); t->late_resume_n = 0; }
+        const int64_t lsig = 3000 + (int64_t)(W.sigctr++);
+        if (t->late_resume_n < 4) t->late_sig[t->late_resume_n] = lsig;
         t->late_resume_n++;
-        cmb_process_resume(t->pp, 3000 + (int64_t)(W.sigctr++));
+        cmb_process_resume(t->pp, lsig);
         return;
     }
     if (!t->started || t->finished || t->op != OP_YIELD) return;
